@@ -396,6 +396,11 @@ func jobsFor(L *Loaded, id string, opt runOpts) ([]unitJob, []*UnitResult) {
 				}
 				fc.used = true
 			}
+			if c.opts["impl-check"] == "frame" {
+				// the postconditions define ghost functions by what the implementations return (assumed: every
+				// implementation is a function of its receiver); what is checked per implementation is the frame
+				cc.ensures = nil
+			}
 			cc.implOf = msig
 			cc.implIface = named
 			cc.kind = "func"
